@@ -295,11 +295,13 @@ Lemma content_sub : forall d p, is_leaf p = false -> ccontent d (CN (sub p)) = c
 Proof. intros d [v|es] H; [discriminate|reflexivity]. Qed.
 
 Theorem merge_tf_content : forall fuel m ps, (m < fuel)%nat -> ps <> [] -> unif m ps ->
-  exists t, merge_tf fuel 0 false ps = Some t /\ sq (ccontent 0 t) (flat_map (ccontent 0) ps).
+  exists t, merge_tf fuel 0 false ps = Some t /\ sq (ccontent 0 t) (flat_map (ccontent 0) ps)
+            /\ cdepth_ok m t = true /\ csorted t = true.
 Proof.
   induction fuel as [|fuel IH]; intros m ps Hm Hne Hu; [lia|].
   destruct ps as [|p0 [|p1 ps']]; [congruence| |].
-  - exists p0. split; [reflexivity|]. simpl. rewrite app_nil_r. apply sq_refl.
+  - exists p0. split; [reflexivity|]. split; [simpl; rewrite app_nil_r; apply sq_refl|].
+    inversion Hu as [|? ? [H1 H2] _]; subst. split; assumption.
   - set (ps := p0 :: p1 :: ps') in *.
     destruct p0 as [v|es0].
     + (* leaves *)
@@ -308,7 +310,8 @@ Proof.
       subst m.
       assert (Hleaf : Forall (fun p => is_leaf p = true) ps).
       { eapply Forall_impl; [|exact Hu]. intros p [H _]. destruct p; [reflexivity|discriminate]. }
-      exists (CL (sumZ (map (leaf_val 0) ps))). split; [reflexivity|]. apply sq_sym. apply leaves_sum. exact Hleaf.
+      exists (CL (sumZ (map (leaf_val 0) ps))). split; [reflexivity|].
+      split; [apply sq_sym; apply leaves_sum; exact Hleaf|split; reflexivity].
     + (* fibers *)
       destruct m as [|m']; [inversion Hu as [|? ? [H _] _]; discriminate|].
       assert (HCN : Forall (fun p => is_leaf p = false) ps).
@@ -342,7 +345,7 @@ Proof.
           rewrite Hf0. cbn [app]. apply IHf.
           intros f' cp' Hf' Hcp'. apply (Hcsin f' cp'); [right; exact Hf'|exact Hcp']. }
         rewrite Ecs. exists (CN []). split; [reflexivity|].
-        apply sq_perm. apply Permutation_refl'. symmetry. exact Hall0. }
+        split; [apply sq_perm; apply Permutation_refl'; symmetry; exact Hall0|split; reflexivity]. }
       assert (Hdflt : cdepth_ok m' (tf_dflt 0 fs) = true /\ csorted (tf_dflt 0 fs) = true /\ ccontent 0 (tf_dflt 0 fs) = []).
       { unfold tf_dflt. destruct (existsb (fun f => existsb (fun cp : coord * ct => negb (is_leaf (snd cp))) f) fs) eqn:Eex.
         - split; [|split; reflexivity]. apply existsb_exists in Eex. destruct Eex as [f [Hf Eex]].
@@ -369,15 +372,26 @@ Proof.
       destruct (all_some_Forall2
                   (fun c => option_map (pair c) (merge_tf fuel 0 false (map (tf_pick 0 fs c) fs)))
                   (fun c (cp' : coord * ct) => exists t, cp' = (c, t)
-                       /\ sq (ccontent 0 t) (flat_map (ccontent 0) (map (tf_pick 0 fs c) fs))) cs) as [rs [Ers Rrs]].
-      { intros c _. destruct (IH m' (map (tf_pick 0 fs c) fs)) as [t [Et Ht]]; [lia| |apply Hpicks|].
+                       /\ sq (ccontent 0 t) (flat_map (ccontent 0) (map (tf_pick 0 fs c) fs))
+                       /\ cdepth_ok m' t = true /\ csorted t = true) cs) as [rs [Ers Rrs]].
+      { intros c _. destruct (IH m' (map (tf_pick 0 fs c) fs)) as [t [Et [Ht [Hd1 Hs1]]]]; [lia| |apply Hpicks|].
         - destruct fs; [congruence|discriminate].
         - exists (c, t). rewrite Et. split; [reflexivity|]. exists t. auto. }
       rewrite Ers. exists (CN rs). split; [reflexivity|].
+      assert (Hwf : cdepth_ok (S m') (CN rs) = true /\ csorted (CN rs) = true).
+      { assert (Hk : map fst rs = cs).
+        { clear -Rrs. induction Rrs as [|c cp' cs rs [t [-> _]] _ IHR]; [reflexivity|]. simpl. f_equal. exact IHR. }
+        assert (Hp : Forall (fun cp : coord * ct => cdepth_ok m' (snd cp) = true /\ csorted (snd cp) = true) rs).
+        { clear -Rrs. induction Rrs as [|c cp' cs rs [t [-> [_ [H1 H2]]]] _ IHR]; constructor; auto. }
+        split.
+        - simpl. apply forallb_forall. intros cp Hin. rewrite Forall_forall in Hp. apply (Hp _ Hin).
+        - apply csorted_CN. split; [rewrite Hk; exact Hcspw|].
+          eapply Forall_impl; [|exact Hp]. intros cp [_ H]. exact H. }
+      split; [|exact Hwf].
       (* content of the result, coordinate by coordinate *)
       assert (S1 : sq (ccontent 0 (CN rs))
                       (flat_map (fun c => map (pcons c) (flat_map (ccontent 0) (map (tf_pick 0 fs c) fs))) cs)).
-      { clear -Rrs. induction Rrs as [|c cp' cs rs [t [-> Ht]] _ IHR]; [apply sq_refl|].
+      { clear -Rrs. induction Rrs as [|c cp' cs rs [t [-> [Ht _]]] _ IHR]; [apply sq_refl|].
         rewrite content_cons. cbn [flat_map]. apply sq_app; [|exact IHR].
         apply (sq_map (cons c)). exact Ht. }
       eapply sq_trans; [exact S1|]. apply sq_perm.
@@ -393,6 +407,37 @@ Proof.
       apply (pick_sum (tf_dflt 0 fs) (cpresent 0 f) cs Hdc Hcsnd).
       * apply (pw_NoDup ccmp); [exact ccmp_refl|]. unfold cpresent. apply pw_fst_filter_local. apply (Hfs f Hf).
       * intros k Hk. apply in_map_iff in Hk. destruct Hk as [cp [<- Hcp]]. apply (Hcsin f cp Hf Hcp).
+Qed.
+
+(* the keys of the groups are strictly ascending *)
+Lemma ins_group_keys : forall k p acc x, In x (map fst (ins_group k p acc)) <-> x = k \/ In x (map fst acc).
+Proof.
+  induction acc as [|[k' ps] acc IH]; intros x; simpl; [intuition|].
+  destruct (ccmp k' k) eqn:E; simpl.
+  - apply ccmp_eq in E. subst k'. intuition (subst; auto).
+  - rewrite IH. intuition.
+  - intuition.
+Qed.
+
+Lemma ins_group_pw : forall k p acc, pw ccmp (map fst acc) -> pw ccmp (map fst (ins_group k p acc)).
+Proof.
+  induction acc as [|[k' ps] acc IH]; intros H; simpl; [split; [constructor|exact I]|].
+  simpl in H. destruct H as [Hk' Hl]. destruct (ccmp k' k) eqn:E; simpl.
+  - split; assumption.
+  - split; [|apply IH; exact Hl]. apply Forall_forall. intros y Hy. apply ins_group_keys in Hy.
+    destruct Hy as [->|Hy]; [exact E|]. rewrite Forall_forall in Hk'. auto.
+  - assert (Hlt : ccmp k k' = Lt) by (rewrite (ccmp_anti k' k), E; reflexivity).
+    split; [|split; assumption]. constructor; [exact Hlt|].
+    eapply Forall_impl; [|exact Hk']. intros y Hy. eapply ccmp_trans; eassumption.
+Qed.
+
+Lemma group_items_pw : forall items, pw ccmp (map fst (group_items items)).
+Proof.
+  intros items. unfold group_items.
+  assert (G : forall items acc, pw ccmp (map fst acc) ->
+              pw ccmp (map fst (fold_left (fun acc kp => ins_group (fst kp) (snd kp) acc) items acc))).
+  { induction items0 as [|[k p] items0 IH]; intros acc H; [exact H|]. simpl. apply IH. apply ins_group_pw. exact H. }
+  apply G. exact I.
 Qed.
 
 (* ------------------------------------------------------------------ one level of mergeRanks *)
@@ -411,7 +456,8 @@ Theorem merge1_content : forall style fuel shapes es m, (m < fuel)%nat -> all_fi
                            (sub (snd cp))) es ->
   exists r, merge_helper 1 style false fuel shapes 0 es = Some r
     /\ sq (ccontent 0 (CN r))
-          (ccontent 0 (CN (merge_items style (prodZ (firstn 1 (tl shapes))) 0 es))).
+          (ccontent 0 (CN (merge_items style (prodZ (firstn 1 (tl shapes))) 0 es)))
+    /\ csorted (CN r) = true /\ cdepth_ok (S m) (CN r) = true.
 Proof.
   intros style fuel shapes es m Hm Hf Hlow.
   set (items := merge_items style (prodZ (firstn 1 (tl shapes))) 0 es).
@@ -423,20 +469,29 @@ Proof.
   destruct (all_some_Forall2
               (fun g : coord * list ct => option_map (pair (fst g)) (merge_tf fuel 0 false (snd g)))
               (fun g (cp' : coord * ct) => exists t, cp' = (fst g, t)
-                   /\ sq (ccontent 0 t) (flat_map (ccontent 0) (snd g))) gs) as [rs [Ers Rrs]].
+                   /\ sq (ccontent 0 t) (flat_map (ccontent 0) (snd g))
+                   /\ cdepth_ok m t = true /\ csorted t = true) gs) as [rs [Ers Rrs]].
   { intros g Hg. rewrite Forall_forall in Hne.
-    destruct (merge_tf_content fuel m (snd g) Hm (Hne _ Hg)) as [t [Et Ht]].
+    destruct (merge_tf_content fuel m (snd g) Hm (Hne _ Hg)) as [t [Et [Ht [Hd1 Hs1]]]].
     - apply Forall_forall. intros p Hp. rewrite Forall_forall in Hitems.
       apply (Hitems (fst g, p)). apply (Permutation_in _ HP). unfold ungroups. apply in_flat_map.
       exists g. split; [exact Hg|]. apply in_map. exact Hp.
     - exists (fst g, t). rewrite Et. split; [reflexivity|]. exists t. auto. }
   exists rs. split.
   - unfold merge_helper. rewrite existsb_leaf_false by exact Hf. fold items. fold gs. exact Ers.
-  - eapply sq_trans; [|apply sq_perm; apply (content_perm 0 _ _ HP)].
-    rewrite content_ungroups. clear -Rrs.
-    induction Rrs as [|g cp' gs rs [t [-> Ht]] _ IHR]; [apply sq_refl|].
-    rewrite content_cons. cbn [flat_map]. apply sq_app; [|exact IHR].
-    apply (sq_map (cons (fst g))). exact Ht.
+  - assert (Hk : map fst rs = map fst gs).
+    { clear -Rrs. induction Rrs as [|g cp' gs rs [t [-> _]] _ IHR]; [reflexivity|]. simpl. f_equal. exact IHR. }
+    assert (Hp : Forall (fun cp : coord * ct => cdepth_ok m (snd cp) = true /\ csorted (snd cp) = true) rs).
+    { clear -Rrs. induction Rrs as [|g cp' gs rs [t [-> [_ [H1 H2]]]] _ IHR]; constructor; auto. }
+    split; [|split].
+    + eapply sq_trans; [|apply sq_perm; apply (content_perm 0 _ _ HP)].
+      rewrite content_ungroups. clear -Rrs.
+      induction Rrs as [|g cp' gs rs [t [-> [Ht _]]] _ IHR]; [apply sq_refl|].
+      rewrite content_cons. cbn [flat_map]. apply sq_app; [|exact IHR].
+      apply (sq_map (cons (fst g))). exact Ht.
+    + apply csorted_CN. split; [rewrite Hk; apply group_items_pw|].
+      eapply Forall_impl; [|exact Hp]. intros cp [_ H]. exact H.
+    + simpl. apply forallb_forall. intros cp Hin. rewrite Forall_forall in Hp. apply (Hp _ Hin).
 Qed.
 
 (* ... and the oracle's content clause follows from [sq]: equal point sums *)
